@@ -733,6 +733,7 @@ def oracle_case(rec, case, rng, tier):
     cls = (meta['kind'], meta['look'], meta['tcoa_kind'], tuple(meta['first']) != (0, 0), bool(meta.get('mirror_of') is not None))
     scp, n0 = default_plane(meta)
     ref_h = float(ecf_to_geod(scp)[2])
+    case['ref_hae'] = ref_h
 
     # (1)(2) plane, default arguments
     P = pp.image_to_ground_plane(pix, s)
@@ -827,7 +828,7 @@ def invariance(rec, case, rng, pp, cls):
     singles = [rng.randrange(N) for _ in range(6)]
     bs = rng.choice([2, 3, 7, 50])
 
-    def variants(f, ref, tag, ident, key, coupled_alarm=None):
+    def variants(f, ref, tag, ident, key, coupled_alarm=None, nan_rows=None):
         """f(points, **kw) -> array aligned with points.  `ident`: threshold for paths that must be pointwise;
         coupled_alarm: threshold for variants that change which points share an iteration loop"""
         lim = ident if coupled_alarm is None else coupled_alarm
@@ -840,6 +841,12 @@ def invariance(rec, case, rng, pp, cls):
         rec.check(case, f'{tag}: block_size=None', f(pix, block_size=None) - ref, ident, key)
         rec.check(case, f'{tag}: sub-batch', f(pix[sub]) - ref[sub], lim, key, {'slice': [sub.start, sub.stop]})
         rec.check(case, f'{tag}: duplicated batch', f(numpy.concatenate([pix, pix]))[N:] - ref, ident, key)
+        if nan_rows is not None:
+            # a no-data (NaN) point in the batch must not change what the other points get
+            mixed = numpy.concatenate([pix[:7], nan_rows, pix[7:20]])
+            got = f(mixed)
+            keep = numpy.concatenate([got[:7], got[7 + len(nan_rows):]])
+            rec.check(case, f'{tag}: batch containing a NaN (no-data) point', keep - ref[:20], lim, key, {'nan_rows': len(nan_rows)})
         for i in singles:
             one = f(pix[i])
             rec.check(case, f'{tag}: single 1-d point', numpy.ravel(one) - ref[i], lim, key, {'index': i})
@@ -851,7 +858,14 @@ def invariance(rec, case, rng, pp, cls):
     variants(lambda x, **k: pp.image_to_ground_plane(x, s, **k), P, 'plane', IDENT, 'invariance-plane')
     # iterative, iteration count forced equal for every batch (tolerance at its floor): pointwise, identical
     f_h = lambda x, **k: pp.image_to_ground_hae(x, s, tolerance=1e-12, max_iterations=6, **k)
-    variants(f_h, f_h(pix), 'hae(fixed iteration count)', IDENT, 'invariance-hae')
+    variants(f_h, f_h(pix), 'hae(fixed iteration count)', IDENT, 'invariance-hae', nan_rows=numpy.full((1, 2), numpy.nan))
+    # an explicit target height that differs from the reference point height, through the blocked and the single-block path
+    h0 = float(case.get('ref_hae', 0.0)) + rng.choice([-1, 1]) * rng.uniform(150.0, 700.0)
+    f_h0 = lambda x, **k: pp.image_to_ground_hae(x, s, hae0=h0, tolerance=1e-12, max_iterations=8, **k)
+    ref_h0 = f_h0(pix)
+    variants(f_h0, ref_h0, f'hae(hae0 = reference height {h0 - float(case.get("ref_hae", 0.0)):+.0f} m, fixed iteration count)', IDENT, 'invariance-hae')
+    hh = ecf_to_geod(ref_h0)[2]
+    rec.check(case, 'hae(explicit hae0): returned points are at the requested height (m)', hh[numpy.isfinite(hh)] - h0, ALARM_M, 'surface')
     G = lambda x, **k: pp.ground_to_image(x, s, tolerance=1e-12, max_iterations=8, **k)[0]
     g_ref = G(H)
 
@@ -863,6 +877,11 @@ def invariance(rec, case, rng, pp, cls):
         g = H[idx].reshape(x.shape[:-1] + (3,))
         return G(g, **k)
     variants(g_on, g_ref, 'ground_to_image(fixed iteration count)', IDENT_PIX, 'invariance-g2i')
+    # ground points that cannot be imaged (NaN no-data coordinates) in the same batch as ordinary points
+    gnan = numpy.concatenate([H[:7], numpy.full((1, 3), numpy.nan), H[7:20]])
+    got_n = G(gnan)
+    rec.check(case, 'ground_to_image(fixed iteration count): batch containing a NaN (no-data) ground point',
+              numpy.concatenate([got_n[:7], got_n[8:]]) - g_ref[:20], IDENT_PIX, 'invariance-g2i')
     rec.check(case, 'round trip hae(default) -> ground_to_image(fixed iteration count) (pixel)', g_ref - pix, ALARM_PIX, 'round-trip', log=1e-5)
     # iterative at the default tolerances: the exit test is shared by the batch
     f_d = lambda x, **k: pp.image_to_ground_hae(x, s, **k)
@@ -876,6 +895,9 @@ def invariance(rec, case, rng, pp, cls):
         idx = [int(numpy.argmin(numpy.abs(pix - q).sum(axis=1))) for q in flat]
         return Gd(H[idx].reshape(x.shape[:-1] + (3,)), **k)
     variants(gd_on, gd_ref, 'ground_to_image(default tolerance)', IDENT_PIX, 'g2i-exit-coupled-to-batch', ALARM_PIX)
+    got_n = Gd(gnan)
+    rec.check(case, 'ground_to_image(default tolerance): batch containing a NaN (no-data) ground point',
+              numpy.concatenate([got_n[:7], got_n[8:]]) - gd_ref[:20], ALARM_PIX, 'g2i-exit-coupled-to-batch')
     rec.classes.add(cls + ('invariance', a, bs))
 
 
